@@ -69,7 +69,11 @@ MANIFEST = {
             "max_retries is a task-level option (explicit zeros) or left to the app level; group sizes 1..6 (+repeats, corpus up "
             "to 7) straddle the batch sizes; groups pass common_args next to per-call dicts with differing key sets; the "
             "retry accounting is judged against the DECLARED option and every body logs received vs passed keyword arguments "
-            "(oracle call-args). The three new facts stand beside the interpreters (they justify taking the declared header / "
+            "(oracle call-args). Large payloads: calls with ~400 KB list / 200 KB string arguments and ~120 KB results of equal "
+            "size that differ only in the middle, singly and in groups (3 cases in quick, 12 in thorough); the body adds the "
+            "mark it receives, call-args compares received vs passed. An execution that ends in a harness-side exception is "
+            "run again in a fresh scratch directory; failing twice it is a violation impl-crash with a replay, never a "
+            "harness error. The three new facts stand beside the interpreters (they justify taking the declared header / "
             "every member / own arguments at face value) rather than being threaded through them. The distributed side of parallelize (distribute_batch_calls / "
             "route_calls) has no generated fact; it is covered by the differential runs only.",
     "design_ref": "DESIGN.md §6 C19",
@@ -489,6 +493,7 @@ def run_impl(mode, case, scratch, slots=1, tag="x", timeout=40.0, inject=None):
     (at most 1 s), i.e. the thread that published RETRY is descheduled just before it bumps the counter."""
     from harness import tasks_c19 as T
     sync = mode == "sync"
+    os.makedirs(scratch, exist_ok=True)      # /dev/shm is shared with other jobs: survive a foreign clean-up between runs
     app = world.make_app("mem" if sync else mode, scratch, app_id=f"c19_{mode}_{slots}_{tag}",
                          dev_mode_force_sync_tasks=sync, runner_cls="ThreadRunner",
                          runner_loop_sleep_time_sec=0.002, invocation_wait_results_sleep_time_sec=0.002,
@@ -939,10 +944,35 @@ def main(ctx: Ctx) -> int:
         with fctx.Pool(NWORKERS, initializer=_init_worker, initargs=(fctx.Value("i", 0),), maxtasksperchild=60) as pool:
             for idx, mode, slots, obs in pool.imap_unordered(_work, jobs, chunksize=2):
                 results[(idx, mode, slots)] = obs
-        errs = [(k, o) for k, o in results.items() if "harness_error" in o]
+        # an execution that ended in an exception outside the observed client call (scratch directory removed under
+        # the run, a backend query of the harness raising, ...) is not a verdict yet: run it again, in a fresh
+        # scratch directory; one that fails twice the same way is reported as a violation (impl-crash) with a
+        # replay - on the unchanged tree no backend call of the harness raises
+        errs = sorted(k for k, o in results.items() if "harness_error" in o)
+        crashed: dict = {}
         if errs:
-            from harness.common import CheckError
-            raise CheckError(f"{len(errs)} executions failed in the harness, first: {errs[0][0]} {errs[0][1]['harness_error']}\n{errs[0][1]['trace']}")
+            ctx.log(f"{len(errs)} executions ended in a harness-side exception, first: {errs[0]} "
+                    f"{results[errs[0]]['harness_error']} - running them again in a fresh scratch directory")
+            scratch2 = world.scratch_dir()
+            try:
+                redo = [(k[0], k[1], k[2], cases[k[0]][1], scratch2) for k in errs]
+                with fctx.Pool(NWORKERS, initializer=_init_worker, initargs=(fctx.Value("i", 0),), maxtasksperchild=60) as pool:
+                    for idx, mode, slots, obs in pool.imap_unordered(_work, redo, chunksize=1):
+                        if "harness_error" in obs:
+                            crashed[(idx, mode, slots)] = (results[(idx, mode, slots)], obs)
+                        results[(idx, mode, slots)] = obs
+            finally:
+                world.rm_scratch(scratch2)
+            ctx.notes["harness_side_exceptions"] = {"first_round": len(errs), "again_on_rerun": len(crashed),
+                                                    "first": results[errs[0]].get("harness_error") if errs[0] in crashed else "transient"}
+        for (idx, mode, slots), (first, again) in sorted(crashed.items()):
+            ctx.violation(f"impl-crash:{mode}",
+                          f"[{cases[idx][0]}] {mode}: the run could not be observed, twice: {again['harness_error']} "
+                          f"(first time: {first['harness_error']})",
+                          {"case": cases[idx][1], "name": cases[idx][0], "mode": mode, "slots": slots, "trace": again["trace"]})
+            # keep the bookkeeping below total: an unobservable run counts as a hang with an empty log
+            results[(idx, mode, slots)] = {"mode": mode, "slots": slots, "out": ["hang"], "top_retries": None, "retries": {},
+                                           "log": [], "wall": 0.0, "max_slots": slots, "crashed": True}
         # the retry race, under the schedule that exhibits it (see run_impl inject): parent waits for a child
         # that keeps raising RetryError with max_retries=1
         race_case = {"top": "call", "progs": [node(1, body=[["call", node(2, mr=1, dflt=[1, 0, 0])]])]}
@@ -967,6 +997,8 @@ def main(ctx: Ctx) -> int:
         for j, (name, c) in enumerate(cases):
             s_obs = results[(j, "sync", 1)]
             m = model[j]
+            if s_obs.get("crashed"):
+                continue
             stats["top"][c["top"]] += 1
             stats["guarded" if m["req"] else "unguarded"] += 1
             stats["outcome"][s_obs["out"][0] + (":" + s_obs["out"][1] if s_obs["out"][0] == "exc" else "")] += 1
@@ -988,7 +1020,7 @@ def main(ctx: Ctx) -> int:
                 ctx.violation("model-mismatch:sync", f"sync run differs from run_sync: impl {got}, model {want}",
                               dict(rp, mode="sync", slots=1, impl=got, model=want))
             for (jj, mode, slots), d_obs in results.items():
-                if jj != j or mode == "sync":
+                if jj != j or mode == "sync" or d_obs.get("crashed"):
                     continue
                 n_eval += 1
                 stats["wall_by_mode"][mode] += d_obs["wall"]
@@ -1076,6 +1108,8 @@ def main(ctx: Ctx) -> int:
         "environment of a case: app-level config max_retries 1..3 / parallel_batch_size 0..3 or defaults, task-level "
         "parallel_batch_size 0..3 or absent; a task declares max_retries itself (also 0) or leaves it to the app level; "
         "keyword arguments extra (per call) and shift (common_args) are added to the body's value, declared in the spec",
+        "large payloads are 60 000-element int lists / 200 000-character strings whose middle element carries a mark 1..9; "
+        "big results are 60 000-element lists unwrapped by the caller",
         "distributed runs use the real ThreadRunner in a thread, 2 ms loop sleeps, GIL switch interval 0.5 ms; verdicts use "
         "outcome, per-node execution counts and final num_retries only; a verdict of a distributed run must reproduce on "
         "two re-runs of the same case, each with a 40 s limit (unreproduced ones are listed under transient_unreproduced)",
@@ -1092,7 +1126,8 @@ def main(ctx: Ctx) -> int:
     return ctx.finish(
         rule="cases = 4 refutation witnesses + 13 repeated-argument-set cases + batch-size / common_args / option-level corpus "
              "(group sizes x batch sizes at task and app level; heterogeneous per-call dicts with common_args; app-level vs "
-             "task-level max_retries incl. explicit 0 for plain, direct, group, direct-parallel tasks) + exhaustive leaf enumeration (max_retries x retry_for x exception kind x always-"
+             "task-level max_retries incl. explicit 0 for plain, direct, group, direct-parallel tasks) + large-payload cases "
+             "(3 quick / 12 thorough) + exhaustive leaf enumeration (max_retries x retry_for x exception kind x always-"
              "raising/first success on attempt k) + seeded random programs (depth <= 3, guard-biased and lazy-allowed streams; ~40% of "
              "the groups repeat a member, ~12% of the single calls are made twice); "
              "each case executed in sync mode, on mem+ThreadRunner and SQLite+ThreadRunner (1 slot; 2 slots when it has a group) "
@@ -1121,7 +1156,13 @@ def replay(ctx: Ctx, path: str) -> int:
             rc = 1
         mode = rp.get("mode", "mem")
         for md, sl in ([(mode, rp.get("slots", 1))] if mode != "sync" else [("mem", 1), ("sqlite", 1)]):
-            d_obs = run_impl(md, case, scratch, sl, tag="rd", inject=rp.get("inject"))
+            try:
+                d_obs = run_impl(md, case, scratch, sl, tag="rd", inject=rp.get("inject"))
+            except Exception as ex:  # noqa: BLE001 - the recorded violation may be exactly this (impl-crash)
+                print(f"{md:6}: the run could not be observed: {type(ex).__name__}: {ex}")
+                print("  -> impl-crash:" + md)
+                rc = 1
+                continue
             print(f"{md:6}:", d_obs["out"], "executions", dict(counts_of(d_obs)), "num_retries", d_obs["top_retries"])
             got = (canon_out(d_obs["out"]), sorted(e["node"] for e in d_obs["log"]),
                    d_obs["top_retries"] if case["top"] == "call" and d_obs["top_retries"] is not None else 0)
